@@ -290,8 +290,13 @@ class _CanonicalBranches(ast.NodeTransformer):
                         continue
                     fill = self._fill_of(b_)
                     if fill is None:
-                        ok = False
-                        break
+                        many = self._fills_of_two_arms(b_)
+                        if many is None:
+                            ok = False
+                            break
+                        for fl in many:
+                            fills.append((fl[0], fl[1], [self._subst_names(x, temps) for x in fl[2]]))
+                        continue
                     fills.append((fill[0], fill[1], [self._subst_names(x, temps) for x in fill[2]]))
                 if not ok or not fills:
                     continue
@@ -386,6 +391,27 @@ class _CanonicalBranches(ast.NodeTransformer):
                 return a[0], a[1], parts
         return None
 
+    def _fills_of_two_arms(self, b_):
+        """a two-armed `if` whose arms add one element each to the same containers, in the same order: one fill per container
+        whose element is a conditional expression"""
+        if not (isinstance(b_, ast.If) and len(b_.body) == len(b_.orelse) and len(b_.body) >= 2):
+            return None
+        out = []
+        for x_, y_ in zip(b_.body, b_.orelse):
+            one = ast.If(test=b_.test, body=[x_], orelse=[y_])
+            ast.copy_location(one, b_)
+            f_ = self._fill_of(one)
+            if f_ is None or f_[0] == "sum":
+                return None
+            out.append(f_)
+        names = [f_[1] for f_ in out]
+        if len(set(names)) != len(names):
+            return None
+        # the test must not depend on the containers (it is evaluated once per round, before any of the fills)
+        if any(self._mentions(b_.test, n_) for n_ in names):
+            return None
+        return out
+
     @staticmethod
     def _subst_names(expr, mapping):
         """expr with the names of `mapping` replaced by (copies of) their expressions"""
@@ -423,7 +449,86 @@ class _CanonicalBranches(ast.NodeTransformer):
                         for b in copy.deepcopy(st.body):
                             out.append(_Sub().visit(b))
                     continue
+            unrolled = _CanonicalBranches._unroll_name_loop(st)
+            if unrolled is not None:
+                out.extend(unrolled)
+                continue
             out.append(st)
+        return out
+
+    @staticmethod
+    def _unroll_name_loop(st):
+        """`for a, b in ((x, y), (y, z)): BODY` - a short literal tuple / list whose elements are plain names, constants,
+        attribute chains or tuples of those, none of which BODY rebinds, the loop variables only read - is BODY with
+        a, b = x, y followed by BODY with a, b = y, z (the elements are evaluated without effect, so evaluating them
+        one round at a time is the same); the loop variables keep their last values afterwards."""
+        if not (isinstance(st, ast.For) and not st.orelse and isinstance(st.iter, (ast.Tuple, ast.List))
+                and 1 <= len(st.iter.elts) <= 4):
+            return None
+
+        def simple(e):
+            if isinstance(e, (ast.Constant, ast.Name)):
+                return True
+            if isinstance(e, ast.Attribute):
+                return simple(e.value)
+            return False
+
+        def names_of(t):
+            if isinstance(t, ast.Name):
+                return [t.id]
+            if isinstance(t, (ast.Tuple, ast.List)) and all(isinstance(x, ast.Name) for x in t.elts):
+                return [x.id for x in t.elts]
+            return None
+        targets = names_of(st.target)
+        if targets is None or len(set(targets)) != len(targets):
+            return None
+        rounds = []
+        for e in st.iter.elts:
+            if isinstance(st.target, ast.Name):
+                if not simple(e):
+                    return None
+                rounds.append({targets[0]: e})
+            else:
+                if not (isinstance(e, (ast.Tuple, ast.List)) and len(e.elts) == len(targets) and all(simple(x) for x in e.elts)):
+                    return None
+                rounds.append(dict(zip(targets, e.elts)))
+        if all(isinstance(x, ast.Constant) for r in rounds for x in r.values()) and isinstance(st.target, ast.Name):
+            return None         # the constant form is handled by the caller (kept as it was)
+        def decontinue(body):
+            """`if c: continue` at the top level of a round is `if not c: <rest of the round>`"""
+            for k, b in enumerate(body):
+                if isinstance(b, ast.If) and not b.orelse and len(b.body) == 1 and isinstance(b.body[0], ast.Continue):
+                    rest = decontinue(body[k + 1:])
+                    if not rest:
+                        return body[:k]
+                    new_if = ast.copy_location(ast.If(test=_negated(b.test), body=rest, orelse=[]), b)
+                    return body[:k] + [new_if]
+            return body
+        st_body = decontinue(list(st.body))
+        if st_body and isinstance(st_body[-1], ast.Continue):
+            st_body = st_body[:-1]
+        body_mod = ast.Module(body=st_body, type_ignores=[])
+        read_in_elems = {n.id for r in rounds for x in r.values() for n in ast.walk(x) if isinstance(n, ast.Name)}
+        for n in ast.walk(body_mod):
+            if isinstance(n, (ast.Break, ast.Continue, ast.FunctionDef, ast.AsyncFunctionDef, ast.Lambda, ast.ClassDef,
+                              ast.Global, ast.Nonlocal)):
+                return None
+            if isinstance(n, ast.Name) and not isinstance(n.ctx, ast.Load) and (n.id in targets or n.id in read_in_elems):
+                return None
+        out = []
+        for r in rounds:
+            class _Sub(ast.NodeTransformer):
+                def visit_Name(self, n, _r=r):
+                    if isinstance(n.ctx, ast.Load) and n.id in _r:
+                        return ast.copy_location(copy.deepcopy(_r[n.id]), n)
+                    return n
+            for b in copy.deepcopy(st_body):
+                out.append(_Sub().visit(b))
+        last = rounds[-1]
+        for t in targets:
+            asg = ast.Assign(targets=[ast.Name(id=t, ctx=ast.Store())], value=copy.deepcopy(last[t]), lineno=st.lineno,
+                             col_offset=st.col_offset)
+            out.append(ast.fix_missing_locations(ast.copy_location(asg, st)))
         return out
 
     def _flatten(self, stmts, fn_level=False):
